@@ -134,6 +134,7 @@ type Stats struct {
 	ClockReads      int64
 	RandDraws       int64
 	MapOrders       int64 // seeded decisions about map iteration order
+	TimersFired     int64
 }
 
 type abortPanic struct{ why string }
@@ -157,6 +158,12 @@ type Sim struct {
 	OnFault                   bool
 	runBuf                    [maxTasks]*Task
 	jumpPos                   int
+	nPersist                  int
+	draining                  bool  // the callers are done; goroutines of the library run on until quiescence
+	drainLeft                 int64 // points left for that
+	users                     []*Task
+	dead                      bool // the last run was aborted: everything was unwound
+	afterAbort                bool
 	GoPanic                   string
 }
 
@@ -193,7 +200,8 @@ type TraceEv struct {
 
 func (e TraceEv) String() string { return fmt.Sprintf("%s %d %d", e.Kind, e.A, e.B) }
 
-const maxTasks = 64
+const maxTasks = 512 // caller tasks plus goroutines of the library alive at one time
+const waitCap = 64   // tasks parked on one primitive
 const traceCap = 1 << 16
 
 //go:norace
@@ -236,9 +244,52 @@ func (s *Sim) SigHash() uint64 { return s.sigHash }
 //
 //go:norace
 func New(cfg Config, nPoints int, collectCover bool) *Sim {
-	s := &Sim{cfg: cfg, hash: fnvOff, sigHash: fnvOff, mainWake: make(chan struct{}, 1)}
-	s.tasks = make([]*Task, 0, maxTasks)
-	s.PreemptAt = make([]int, 0, 64)
+	// One world per process: goroutines the library started and that are
+	// still alive (a worker serving requests, a janitor on a ticker) live on
+	// from run to run, as they would in a real process; only the caller
+	// tasks come and go. After an aborted run (deadlock, no progress)
+	// everything was unwound and a new world starts.
+	s := world
+	if s == nil || s.dead {
+		s = &Sim{mainWake: make(chan struct{}, 1)}
+		s.tasks = make([]*Task, 0, maxTasks)
+		s.users = make([]*Task, 0, maxTasks)
+		s.PreemptAt = make([]int, 0, 64)
+		if world != nil && world.dead {
+			s.afterAbort = true
+		}
+		world = s
+	}
+	s.cfg = cfg
+	s.hash, s.sigHash = fnvOff, fnvOff
+	s.schedPos, s.prePos, s.poolPos, s.jumpPos = 0, 0, 0, 0
+	s.St = Stats{}
+	s.AbortWhy, s.GoPanic = "", ""
+	s.aborting = false
+	s.draining = false
+	s.userLeft = 0
+	s.cur = nil
+	s.PreemptAt = s.PreemptAt[:0]
+	s.Trace = nil
+	s.PointHit = nil
+	// keep the library's live goroutines, renumbered
+	n := 0
+	for _, t := range s.tasks {
+		if t.state != tsDone {
+			t.ID = n
+			s.tasks[n] = t
+			n++
+		}
+	}
+	for i := n; i < len(s.tasks); i++ {
+		s.tasks[i] = nil
+	}
+	s.tasks = s.tasks[:n]
+	s.nPersist = n
+	for i := range s.users {
+		s.users[i] = nil
+	}
+	s.users = s.users[:0]
 	if cfg.Trace {
 		s.Trace = make([]TraceEv, 0, traceCap)
 	}
@@ -254,17 +305,38 @@ func New(cfg Config, nPoints int, collectCover bool) *Sim {
 	return s
 }
 
+// world is the persistent simulation of this process.
+var world *Sim
+
+// Persistent reports how many goroutines started by the library are alive
+// between runs (evidence).
+//
+//go:norace
+func Persistent() int {
+	if world == nil {
+		return 0
+	}
+	n := 0
+	for _, t := range world.tasks {
+		if t.state != tsDone && !t.User {
+			n++
+		}
+	}
+	return n
+}
+
 //go:norace
 func (s *Sim) AddTask(fn func()) *Task {
 	if len(s.tasks) >= maxTasks {
 		panic("cvss-sim: too many tasks")
 	}
 	t := &Task{ID: len(s.tasks), User: true, fn: fn, resume: make(chan struct{}), fin: make(chan struct{}), LastPoolStale: -1}
-	if t.ID < len(s.cfg.Preempt) {
-		t.gaps = s.cfg.Preempt[t.ID] // read-only: nextGap only re-slices
+	if u := len(s.users); u < len(s.cfg.Preempt) {
+		t.gaps = s.cfg.Preempt[u] // read-only: nextGap only re-slices
 		t.nextGap()
 	}
 	s.tasks = append(s.tasks, t)
+	s.users = append(s.users, t)
 	s.userLeft++
 	return t
 }
@@ -348,21 +420,25 @@ func (s *Sim) Run() {
 	s.start()
 	// Real edges task -> main, so that the post-run oracles may read
 	// everything the tasks wrote.
-	for i := 0; i < s.nTasks(); i++ {
-		<-s.taskFin(i)
+	for i := 0; i < s.nUsers(); i++ {
+		<-s.userFin(i)
 	}
 }
 
 //go:norace
-func (s *Sim) nTasks() int { return len(s.tasks) }
+func (s *Sim) nUsers() int { return len(s.users) }
 
 //go:norace
-func (s *Sim) taskFin(i int) chan struct{} { return s.tasks[i].fin }
+func (s *Sim) userFin(i int) chan struct{} { return s.users[i].fin }
 
 //go:norace
 func (s *Sim) start() {
-	for _, f := range allResettable {
-		f()
+	if s.afterAbort {
+		// the aborted run left locks, waiters and timers of dead tasks behind
+		for _, f := range allResettable {
+			f()
+		}
+		s.afterAbort = false
 	}
 	for _, p := range allPools {
 		p.reset()
@@ -372,10 +448,10 @@ func (s *Sim) start() {
 		randState = s.cfg.RandSeed
 		orderSeed(s.cfg.RandSeed)
 	}
-	for _, t := range s.tasks {
+	for _, t := range s.users {
 		go t.main(s)
 	}
-	if len(s.tasks) == 0 {
+	if len(s.users) == 0 {
 		S = nil
 		return
 	}
@@ -451,6 +527,7 @@ func (t *Task) body(s *Sim) {
 func (s *Sim) goPanic(msg string) {
 	if !s.aborting {
 		s.aborting = true
+		s.dead = true
 		s.AbortWhy = "goroutine-panic"
 		s.GoPanic = msg
 	}
@@ -474,13 +551,18 @@ func IsAbort(r any) bool { _, ok := r.(abortPanic); return ok }
 //go:norace
 func (s *Sim) taskExit(t *Task) {
 	t.state = tsDone
+	s.ev("exit", t.ID, 0)
 	if t.User {
 		s.userLeft--
 		if s.userLeft == 0 && !s.aborting {
-			s.aborting = true // unwind goroutines the library may have left behind
+			// The callers are done. Goroutines the library started go on
+			// until they block or finish (bounded), as they would while the
+			// callers are idle; then the run is over and they stay parked
+			// where they are.
+			s.draining = true
+			s.drainLeft = drainBudget
 		}
 	}
-	s.ev("exit", t.ID, 0)
 	var next *Task
 	if s.aborting {
 		for _, o := range s.tasks {
@@ -491,10 +573,18 @@ func (s *Sim) taskExit(t *Task) {
 		}
 	} else {
 		next = s.pickNext(nil)
-		if next == nil {
+		for next == nil && !s.draining && s.anyBlocked() && advanceToTimer() {
+			s.fireDue()
+			next = s.pickNext(nil)
+			if next == nil && nTimers == 0 {
+				break
+			}
+		}
+		if next == nil && s.userLeft > 0 && !s.draining {
 			for _, o := range s.tasks {
 				if o.state == tsBlocked {
 					s.aborting = true
+					s.dead = true
 					s.AbortWhy = "deadlock"
 					next = o
 					break
@@ -515,6 +605,33 @@ func (s *Sim) taskExit(t *Task) {
 	raceEnable()
 }
 
+const drainBudget = 4000
+
+// endRun is called by a goroutine of the library when the run is over
+// (quiescence or drain budget): the main goroutine is woken and the task
+// parks until a later run schedules it again.
+//
+//go:norace
+func (s *Sim) endRun(t *Task) {
+	raceDisable()
+	s.mainWake <- struct{}{}
+	<-t.resume
+	raceEnable()
+	if s.aborting {
+		panic(abortPanic{s.AbortWhy})
+	}
+}
+
+//go:norace
+func (s *Sim) anyBlocked() bool {
+	for _, o := range s.tasks {
+		if o.state == tsBlocked {
+			return true
+		}
+	}
+	return false
+}
+
 //go:norace
 func (s *Sim) switchTo(t, next *Task) {
 	s.cur = next
@@ -533,6 +650,7 @@ func (s *Sim) switchTo(t, next *Task) {
 func (s *Sim) abort(why string) {
 	if !s.aborting {
 		s.aborting = true
+		s.dead = true
 		s.AbortWhy = why
 	}
 	panic(abortPanic{why})
@@ -550,6 +668,12 @@ func SchedPoint(kind byte, obj int) {
 	t := s.cur
 	s.St.SchedPoints++
 	clockJump(s)
+	if nTimers > 0 {
+		if nTimers > maxTimers/4 {
+			advanceToTimer() // many pending timers: time passes (always legal), the earliest becomes due
+		}
+		s.fireDue()
+	}
 	t.sinceSP = 0
 	s.sig(t.ID, kind, obj)
 	next := s.pickNext(t)
@@ -594,6 +718,14 @@ func Point(id int) {
 		s.PointHit[id]++
 	}
 	if s.aborting {
+		return
+	}
+	if s.draining {
+		s.drainLeft--
+		if s.drainLeft <= 0 {
+			s.drainLeft = drainBudget
+			s.endRun(t) // still busy: it goes on in the next run
+		}
 		return
 	}
 	if t.countdown > 0 {
@@ -643,12 +775,30 @@ func (s *Sim) preempt(t *Task, id int) {
 //go:norace
 func (s *Sim) block(t *Task) {
 	t.state = tsBlocked
-	next := s.pickNext(nil)
-	if next == nil {
-		t.state = tsRunnable
-		s.abort("deadlock")
+	for {
+		next := s.pickNext(nil)
+		if next != nil {
+			s.switchTo(t, next)
+			return
+		}
+		if s.draining {
+			// quiescent: the run is over; this task stays blocked until somebody wakes it
+			s.endRun(t)
+			if t.state == tsRunnable {
+				return
+			}
+			continue
+		}
+		// everybody waits: if a timer is pending, time passes until it is due
+		if !advanceToTimer() {
+			t.state = tsRunnable
+			s.abort("deadlock")
+		}
+		s.fireDue()
+		if t.state == tsRunnable {
+			return // the timer woke this very task
+		}
 	}
-	s.switchTo(t, next)
 }
 
 //go:norace
@@ -662,14 +812,59 @@ func wake(t *Task) {
 func Go(fn func()) {
 	s := curSim()
 	if s == nil {
-		// calm mode: there is no scheduler; run inline, which is one legal
-		// schedule of the new goroutine.
-		fn()
+		// outside a run (package initialisation, or a plain calm call):
+		// the goroutine becomes a task of the world and starts with the next run
+		w := deferredWorld()
+		if w == nil {
+			fn() // unwinding an aborted run: run inline
+			return
+		}
+		t := w.spawnDeferred(fn)
+		go t.main(w)
 		return
 	}
 	t := s.spawn(fn)
 	go t.main(s) // real creation edge parent -> child, as for a go statement
 	SchedPoint('g', t.ID)
+}
+
+//go:norace
+func deferredWorld() *Sim {
+	if S != nil {
+		return nil // a run is being unwound
+	}
+	if world == nil || world.dead {
+		New(Config{}, 0, false)
+	}
+	return world
+}
+
+//go:norace
+func (s *Sim) spawnDeferred(fn func()) *Task {
+	if len(s.tasks) >= maxTasks {
+		panic("cvss-sim: too many goroutines started outside a run")
+	}
+	t := &Task{ID: len(s.tasks), fn: fn, resume: make(chan struct{}), fin: make(chan struct{}), LastPoolStale: -1}
+	s.tasks = append(s.tasks, t)
+	return t
+}
+
+// compact drops finished tasks from the table (ids are renumbered).
+//
+//go:norace
+func (s *Sim) compact() {
+	n := 0
+	for _, t := range s.tasks {
+		if t.state != tsDone {
+			t.ID = n
+			s.tasks[n] = t
+			n++
+		}
+	}
+	for i := n; i < len(s.tasks); i++ {
+		s.tasks[i] = nil
+	}
+	s.tasks = s.tasks[:n]
 }
 
 //go:norace
@@ -682,6 +877,9 @@ func curSim() *Sim {
 
 //go:norace
 func (s *Sim) spawn(fn func()) *Task {
+	if len(s.tasks) >= maxTasks {
+		s.compact()
+	}
 	if len(s.tasks) >= maxTasks {
 		s.abort("too-many-goroutines")
 	}
@@ -1001,7 +1199,7 @@ func PoolOutstanding() int {
 
 // WaitList is a fixed-capacity list of parked tasks.
 type WaitList struct {
-	t [maxTasks]*Task
+	t [waitCap]*Task
 	n int
 }
 
